@@ -42,6 +42,9 @@ fn pattern_bytes(n: usize, salt: usize) -> Vec<u8> {
 enum Shape {
     /// text row of cells with these data lengths
     TextCells(Vec<usize>),
+    /// the same, but the large row is the last one and is never ended explicitly: finish()
+    /// (variant 0) or dropping the writer (variant 1) has to end it
+    TextCellsImplicit(Vec<usize>, u8),
     /// binary row: one BLOB cell of this length (plus header and bitmap)
     BinCell(usize),
     /// an ERR packet whose message has this length
@@ -77,6 +80,16 @@ fn run_case(c: &Case, st: &mut Stats) -> Result<(), Violation> {
             p.push(WOp::EndRow);
             p.push(WOp::WriteRow((0..lens.len()).map(|i| Val::Bytes(vec![b'a'.wrapping_add(i as u8)])).collect()));
             p.push(WOp::Finish);
+            (vec![q(b"big"), ping()], p)
+        }
+        Shape::TextCellsImplicit(lens, how) => {
+            let cols = Arc::new((0..lens.len()).map(|i| blob(&format!("c{}", i))).collect::<Vec<_>>());
+            let mut p = vec![WOp::Start(cols)];
+            p.push(WOp::WriteRow((0..lens.len()).map(|i| Val::Bytes(vec![b'a'.wrapping_add(i as u8)])).collect()));
+            for (i, l) in lens.iter().enumerate() {
+                p.push(WOp::WriteCol(Val::Bytes(pattern_bytes(*l, i))));
+            }
+            p.push(if *how == 0 { WOp::Finish } else { WOp::Drop });
             (vec![q(b"big"), ping()], p)
         }
         Shape::BinCell(l) => {
@@ -173,6 +186,16 @@ fn run_case(c: &Case, st: &mut Stats) -> Result<(), Violation> {
                 }
             }
         }
+        (Shape::TextCellsImplicit(lens, _), [Unit::ResultSet { rows, end: Ok(_), .. }]) if rows.len() == 2 => {
+            for (i, l) in lens.iter().enumerate() {
+                if rows[1][i] != Cell::Text(pattern_bytes(*l, i)) {
+                    return Err(Violation::new("value-differs", format!("{}: cell {} of {} bytes arrives changed", c.label, i, l)));
+                }
+                if rows[0][i] != Cell::Text(vec![b'a'.wrapping_add(i as u8)]) {
+                    return Err(Violation::new("following-row-differs", format!("{}: the row before the large one arrives changed", c.label)));
+                }
+            }
+        }
         (Shape::BinCell(l), [Unit::ResultSet { rows, end: Ok(_), .. }]) if rows.len() == 2 => {
             if rows[0][0] != Cell::Bin(BinVal::Bytes(pattern_bytes(*l, 0))) || rows[0][1] != Cell::Null {
                 return Err(Violation::new("value-differs", format!("{}: binary cell of {} bytes arrives changed", c.label, l)));
@@ -253,6 +276,23 @@ fn cases(quick: bool) -> Vec<Case> {
                 let n = MAXP / (w + if w < 251 { 1 } else { 3 }) + 40;
                 let per = w + if w < 251 { 1 } else { 3 };
                 v.push(Case { label: format!("text row of {} cells of {} bytes each ({})", n, w, capname), shape: Shape::TextCells(vec![w; n]), msg_len: n * per, write_cap: *cap, fault: None, req_seq: 0 });
+            }
+        }
+        // the large row is the last one and is ended by finish() / by dropping the writer
+        if *cap == usize::MAX {
+            for k in [1usize, 2] {
+                for d in if quick { vec![0i64] } else { vec![-1i64, 0, 1] } {
+                    let l = (k as i64 * MAXP as i64 + d) as usize;
+                    if let Some(x) = cell_for_total(l) {
+                        for how in 0..2u8 {
+                            v.push(Case { label: format!("text row, one cell, message {}*(2^24-1){:+}, row ended by {}", k, d, if how == 0 { "finish()" } else { "drop" }), shape: Shape::TextCellsImplicit(vec![x], how), msg_len: l, write_cap: *cap, fault: None, req_seq: 0 });
+                        }
+                    }
+                }
+            }
+            // column definitions whose whole payload (not just the name) passes the packet limit
+            for nl in if quick { (MAXP - 34..=MAXP - 18).collect::<Vec<usize>>() } else { (MAXP - 60..=MAXP + 6).collect() } {
+                v.push(Case { label: format!("column name of {} bytes (definition payload around 2^24-1)", nl), shape: Shape::ColName(nl), msg_len: nl, write_cap: *cap, fault: None, req_seq: 0 });
             }
         }
         // exact multiples whose packets straddle the wrap of the sequence counter: the empty
@@ -495,7 +535,7 @@ pub fn build(quick: bool) -> Check {
     Check {
         id: "C04",
         level: "model_checking",
-        rule: format!("{} large-message scenarios on the real run_on: logical messages of k*(2^24-1)+d bytes (k in {{1{}}}, d in [-6,6]) as a one-cell text row and as a binary row; two-cell rows with the packet limit falling -1..4 bytes into the second cell (inside its 3-byte length prefix, exactly between the cells, in its data); a one-byte cell straddling the limit; three cells each far below the limit; rows of ~70000 / ~16000 small cells (239..241, 1021 bytes; more sizes in thorough) so that the limit falls at varying offsets of a cell; ERR messages and a column name beyond 2^24 bytes; exact multiples requested with sequence ids 249..252 (thorough 244..255) so that the packets of the message straddle the wrap of the id counter; each under whole, 1 MiB and 65537-byte transport writes; two-packet messages again with one transient deviation (Interrupted once, a write accepting 1 byte / half) at each large transport write; followed by a small row and a sentinel PING. Plus every cell length 0..70000, and cells of 2^15..2^20+1 bytes alone and after 270 / 1500 small rows. Oracle: every header length equals the bytes that follow; the message is cut into floor(L/(2^24-1)) maximal packets plus one shorter (possibly empty) packet; consecutive sequence ids; strict decode returns exactly the bytes written. Non-trivial = message of at least 2^24-1 bytes.", n, ",2"),
+        rule: format!("{} large-message scenarios on the real run_on: logical messages of k*(2^24-1)+d bytes (k in {{1{}}}, d in [-6,6]) as a one-cell text row and as a binary row; two-cell rows with the packet limit falling -1..4 bytes into the second cell (inside its 3-byte length prefix, exactly between the cells, in its data); a one-byte cell straddling the limit; three cells each far below the limit; rows of ~70000 / ~16000 small cells (239..241, 1021 bytes; more sizes in thorough) so that the limit falls at varying offsets of a cell; ERR messages and a column name beyond 2^24 bytes; column names of 2^24-35..2^24-19 bytes (thorough 2^24-61..2^24+5) so that the definition's payload passes the packet limit at every offset; exact multiples as the last, never explicitly ended row (finish / drop); exact multiples requested with sequence ids 249..252 (thorough 244..255) so that the packets of the message straddle the wrap of the id counter; each under whole, 1 MiB and 65537-byte transport writes; two-packet messages again with one transient deviation (Interrupted once, a write accepting 1 byte / half) at each large transport write; followed by a small row and a sentinel PING. Plus every cell length 0..70000, and cells of 2^15..2^20+1 bytes alone and after 270 / 1500 small rows. Oracle: every header length equals the bytes that follow; the message is cut into floor(L/(2^24-1)) maximal packets plus one shorter (possibly empty) packet; consecutive sequence ids; strict decode returns exactly the bytes written. Non-trivial = message of at least 2^24-1 bytes.", n, ",2"),
         assumptions: vec!["message sizes are explored in a window around the packet limit, not exhaustively between 70000 and 2^24-7".into()],
         bounds: json!({"k": 2, "d_window": 6, "scenarios": n}),
         exhaustive: true,
